@@ -374,7 +374,7 @@ contract(f"{TK}.tokenise",
                  ("tokens_in_vocabulary", TOK_INV), ("clock_is_fold", CLOCK_G), ("running_values", RUN_G),
                  ("rest", "buf_rest >= 0 and nxt_rest == min(buf_rest, cur_bar_capacity_remaining)")]),
          },
-         props=["C01", "C02", "C03"])
+         props=[])      # NOT registered yet: 433 of 17137 obligations still undecided within budget and the run takes ~25 min on 16 cores (DESIGN 11.6)
 
 
 @lemma("dfold_ok_means_all", ["C02", "C01"])
